@@ -6,11 +6,11 @@
 -/
 import Props.C12
 import Props.Family
-import Gen.SchemaFacts
+import Gen.Guards.TextLoop
 namespace PM.Family.C12
 open PM
 open PM.C12
-open PM.Gen PM.Family
+open PM.Gen PM.Family PM.FromDom
 
 /-- `PM.C12.canJoin_join_applies` with its schema guards discharged for the bundled schema family -/
 theorem canJoin_join_applies (S : Schema) (hS : S ∈ familySchemas) (doc : Node) (pos : Nat) (st : Step)
@@ -18,7 +18,7 @@ theorem canJoin_join_applies (S : Schema) (hS : S ∈ familySchemas) (doc : Node
     (hc : canJoin S doc pos = some (some true)) (hb : joinStep pos 1 = .ok st) :
     ∃ doc', S.apply st doc = .ok doc' ∧ C01.Valid S doc' ∧
     (ftoks doc'.kids).filter Tok.isContent = (ftoks doc.kids).filter Tok.isContent :=
-  PM.C12.canJoin_join_applies S (family_facts _ hS).TextStableP doc pos st hv hn hg hc hb
+  PM.C12.canJoin_join_applies S (textLoop_of_B _ (family_textLoop _ hS)).stable doc pos st hv hn hg hc hb
 
 /-- `PM.C12.liftTarget_lift_applies_flat` with its schema guards discharged for the bundled schema family -/
 theorem liftTarget_lift_applies_flat (S : Schema) (hS : S ∈ familySchemas) (doc : Node) (a b depth target : Nat)
@@ -29,8 +29,8 @@ theorem liftTarget_lift_applies_flat (S : Schema) (hS : S ∈ familySchemas) (do
     (hb : liftStep doc a b depth target = .ok st) :
     ∃ doc', S.apply st doc = .ok doc' ∧ C01.Valid S doc' ∧
     (ftoks doc'.kids).filter Tok.isContent = (ftoks doc.kids).filter Tok.isContent :=
-  PM.C12.liftTarget_lift_applies_flat S (family_facts _ hS).TextStableP doc a b depth target f t st hv hn hf ht
-    hab hend hfb htb hg hc hb
+  PM.C12.liftTarget_lift_applies_flat S (textLoop_of_B _ (family_textLoop _ hS)).stable doc a b depth target f t
+    st hv hn hf ht hab hend hfb htb hg hc hb
 
 /-- `PM.C12.liftTarget_lift_applies` with its schema guards discharged for the bundled schema family -/
 theorem liftTarget_lift_applies (S : Schema) (hS : S ∈ familySchemas) (doc : Node) (a b depth target : Nat)
@@ -41,7 +41,7 @@ theorem liftTarget_lift_applies (S : Schema) (hS : S ∈ familySchemas) (doc : N
     (hb : liftStep doc a b depth target = .ok st) :
     ∃ doc', S.apply st doc = .ok doc' ∧ C01.Valid S doc' ∧
     (ftoks doc'.kids).filter Tok.isContent = (ftoks doc.kids).filter Tok.isContent :=
-  PM.C12.liftTarget_lift_applies S (family_facts _ hS).TextStableP doc a b depth target f t st hv hn hf ht hab
-    hend hfb htb hg hc hb
+  PM.C12.liftTarget_lift_applies S (textLoop_of_B _ (family_textLoop _ hS)).stable doc a b depth target f t st
+    hv hn hf ht hab hend hfb htb hg hc hb
 
 end PM.Family.C12
